@@ -1157,9 +1157,16 @@ def resolve_bool(v, op, depth=0, at=None):
         return Cond("place", pl=pl, neg=False, at=at)
     l = pl["l"]
     ds = [d for d in v.defs().get(l, [])]
+    if at is not None and len(ds) > 1:
+        # only the definitions that can reach this read (a merge block duplicated per predecessor sees one each)
+        rs = [d for d in ds if v.def_reaches_killing(l, d[1], d[2] if d[0] == "s" else len(v.blocks[d[1]]["s"]), at)]
+        if rs:
+            ds = rs
     # ignore drop-flag style constant defs when there is exactly one non-const def
     nonconst = [d for d in ds if not (d[0] == "s" and d[3]["rv"]["r"] == "use" and d[3]["rv"]["op"]["k"] == "const")]
     if len(nonconst) != 1 or depth > 6:
+        if len(ds) == 1 and not nonconst and ds[0][0] == "s":
+            return Cond("const", val=ds[0][3]["rv"]["op"].get("val"), pl=pl, neg=False)
         if len(ds) >= 1 and not nonconst:
             if v.var_name(l) is not None:
                 # a user-declared bool set from constants on different paths (`let mut ok = false; .. ok = true;`)
